@@ -241,3 +241,124 @@ def solve_all(eng, res, timeout_ms=10000):
 
 def o_timeout(res, default):
     return (res.contract.timeout * 1000) if res.contract.timeout else default
+
+
+# ------------------------------------------------------------- parallel solving
+import os
+import pickle
+import select
+import signal
+
+
+def _child_solve(eng, o, timeout_ms, wfd):
+    out = {"verdict": "unknown", "time": 0.0, "reason": "", "backend": "z3", "model": None, "fuel_used": None}
+    try:
+        eng.discharge(o, timeout_ms=timeout_ms)
+        out["verdict"] = o.verdict
+        out["time"] = o.time
+        out["reason"] = getattr(o, "reason", "")
+        out["fuel_used"] = getattr(o, "fuel_used", None)
+        if o.model is not None:
+            try:
+                from . import replay
+                out["model"] = replay.model_summary(o.model)
+            except Exception as e:   # never let model printing break a verdict
+                out["model"] = {"__error__": str(e)}
+        out["axioms"] = sorted(eng.used_axioms)
+        out["assumptions"] = sorted(eng.assumptions_used)
+    except Unsupported as u:
+        out["verdict"] = "unsupported"
+        out["reason"] = str(u)
+    except z3.Z3Exception as e:
+        out["verdict"] = "unknown"
+        out["reason"] = f"z3: {e}"
+    except Exception as e:
+        out["verdict"] = "error"
+        out["reason"] = f"{type(e).__name__}: {e}\n{traceback.format_exc()}"
+    try:
+        os.write(wfd, pickle.dumps(out))
+    finally:
+        os._exit(0)
+
+
+def solve_parallel(eng, results, jobs=12, timeout_ms=10000, hard_factor=5.0, progress=None):
+    """discharge all obligations of all FnResults in forked children (z3 terms are not
+    picklable, fork shares them); a hard wall-clock limit per obligation backs up the
+    solver's own timeout, which the sequence solver does not always honour."""
+    queue = []
+    for res in results:
+        for o in res.obligations:
+            queue.append((res, o))
+    running = {}   # pid -> (res, o, rfd, start, limit)
+    t0 = time.time()
+    idx = 0
+    done = 0
+    while idx < len(queue) or running:
+        while idx < len(queue) and len(running) < jobs:
+            res, o = queue[idx]
+            idx += 1
+            tmo = o_timeout(res, timeout_ms)
+            rfd, wfd = os.pipe()
+            pid = os.fork()
+            if pid == 0:
+                os.close(rfd)
+                _child_solve(eng, o, tmo, wfd)
+            os.close(wfd)
+            fuel = (o.fuel or 3) + 1
+            running[pid] = (res, o, rfd, time.time(), tmo / 1000.0 * fuel * hard_factor + 10)
+        # wait for something to finish
+        fds = [v[2] for v in running.values()]
+        ready, _, _ = select.select(fds, [], [], 0.2)
+        now = time.time()
+        for pid, (res, o, rfd, start, limit) in list(running.items()):
+            finished = rfd in ready
+            if finished:
+                data = b""
+                while True:
+                    chunk = os.read(rfd, 1 << 16)
+                    if not chunk:
+                        break
+                    data += chunk
+                os.close(rfd)
+                os.waitpid(pid, 0)
+                del running[pid]
+                try:
+                    out = pickle.loads(data)
+                except Exception:
+                    if not getattr(o, "_retried", False):
+                        o._retried = True
+                        queue.append((res, o))     # a crashed solver child: retry once
+                        continue
+                    out = {"verdict": "unknown", "time": now - start, "reason": "solver child died twice", "backend": "z3", "model": None}
+                o.verdict = out["verdict"]
+                o.time = out["time"]
+                o.reason = out.get("reason", "")
+                o.backend = out.get("backend", "z3")
+                o.model_summary = out.get("model")
+                o.fuel_used = out.get("fuel_used")
+                for a in out.get("axioms", []):
+                    eng.used_axioms.add(a)
+                for a in out.get("assumptions", []):
+                    eng.assumptions_used.add(a)
+                done += 1
+                if progress:
+                    progress(done, len(queue), o)
+            elif now - start > limit:
+                try:
+                    os.kill(pid, signal.SIGKILL)
+                except ProcessLookupError:
+                    pass
+                os.close(rfd)
+                os.waitpid(pid, 0)
+                del running[pid]
+                o.verdict = "unknown"
+                o.time = now - start
+                o.reason = "hard wall-clock limit"
+                o.backend = "z3"
+                o.model_summary = None
+                done += 1
+                if progress:
+                    progress(done, len(queue), o)
+    for res in results:
+        res.solve_time = sum(o.time for o in res.obligations)
+    return time.time() - t0
